@@ -33,6 +33,8 @@
 #include <signal.h>
 #include <internal_file_server.cpp>
 #include <cppcms/service.h>
+#include <cppcms/applications_pool.h>
+#include <cppcms/mount_point.h>
 #include <cppcms/json.h>
 #include <cppcms/util.h>
 #include <booster/thread.h>
@@ -41,7 +43,7 @@
 using cppcms::impl::file_server;
 
 struct config {
-	bool sym,list,async;
+	bool sym,list; int async; // 0: sync (config), 1: file_server.async=true (config), 2: file_server(srv,true) mounted asynchronously by hand
 	std::string root;
 	std::vector<std::pair<std::string,std::string> > alias;
 	std::string index;
@@ -96,11 +98,11 @@ static std::string start_service(config const &c)
 	v["service"]["ip"]="127.0.0.1";
 	v["service"]["worker_threads"]=2;
 	v["http"]["timeout"]=10;
-	v["file_server"]["enable"]=true;
+	v["file_server"]["enable"]= c.async!=2;
 	v["file_server"]["document_root"]=c.root;
 	v["file_server"]["listing"]=c.list;
 	v["file_server"]["check_symlink"]=c.sym;
-	v["file_server"]["async"]=c.async;
+	v["file_server"]["async"]= c.async==1;
 	v["file_server"]["index"]=c.index;
 	v["logging"]["level"]="error";
 	for(size_t i=0;i<c.alias.size();i++) {
@@ -117,7 +119,12 @@ static std::string start_service(config const &c)
 	}
 	v["service"]["port"]=port;
 	srv.reset(new cppcms::service(v));
-	direct.reset(new file_server(*srv,c.async));
+	if(c.async==2) {
+		// service.cpp mounts create_pool<file_server>() (async_ = false) even for file_server.async=true;
+		// this variant runs the async_file_handler path of main
+		srv->applications_pool().mount(cppcms::create_pool<file_server>(true),cppcms::mount_point(""),cppcms::app::asynchronous);
+	}
+	direct.reset(new file_server(*srv,c.async==2));
 	srv_thread.reset(new booster::thread(run_service));
 	for(int i=0;i<500;i++) {
 		int fd=connect_port(port);
@@ -295,7 +302,7 @@ static std::string run(std::vector<std::string> const &w)
 	}
 	if(w[0]=="cfg" && w.size()==7) {
 		config c;
-		c.sym=w[1]=="1"; c.list=w[2]=="1"; c.async=w[3]=="1";
+		c.sym=w[1]=="1"; c.list=w[2]=="1"; c.async=atoi(w[3].c_str());
 		if(!vh::unhex(w[4],c.root) || !vh::unhex(w[6],c.index)) return "bad-op";
 		if(w[5]!="-") {
 			std::istringstream ss(w[5]); std::string item;
